@@ -100,9 +100,9 @@ PROPS = {
             # hypothesis of the runner theorems: every library block is a chunk-independent stream function with truthful
             # verdicts (checked on the real blocks: drip-fed vs greedy, verdict acceptor, eof()/constructor probes)
             {"sub": "blocks", "quick": ["--seed", "{seed}", "--mode", "self", "--set", "every", "--cases", 900, "--steps", 40,
-                                        "--fit-probes", 1, "--eof-probes", 1],
+                                        "--fit-probes", 1, "--eof-probes", 1, "--tight-probes", 34],
              "thorough": ["--seed", "{seed}", "--mode", "self", "--set", "every", "--cases", 20000, "--steps", 60,
-                          "--fit-probes", 1, "--eof-probes", 1], "timeout": 20000},
+                          "--fit-probes", 1, "--eof-probes", 1, "--tight-probes", 1700], "timeout": 20000},
             {"sub": "sched", "quick": ["--seed", "{seed}", "--what", "mt", "--mt-cases", 400],
              "thorough": ["--seed", "{seed}", "--what", "mt", "--mt-cases", 40000], "timeout": 20000},
             {"sub": "graphs", "quick": ["--seed", "{seed}", "--runner", "mt", "--cases", 50, "--configs", 3],
@@ -129,9 +129,9 @@ PROPS = {
             # hypothesis of the runner theorems: every library block is a chunk-independent stream function with truthful
             # verdicts (checked on the real blocks: drip-fed vs greedy, verdict acceptor, eof()/constructor probes)
             {"sub": "blocks", "quick": ["--seed", "{seed}", "--mode", "self", "--set", "every", "--cases", 900, "--steps", 40,
-                                        "--fit-probes", 1, "--eof-probes", 1],
+                                        "--fit-probes", 1, "--eof-probes", 1, "--tight-probes", 34],
              "thorough": ["--seed", "{seed}", "--mode", "self", "--set", "every", "--cases", 20000, "--steps", 60,
-                          "--fit-probes", 1, "--eof-probes", 1], "timeout": 20000},
+                          "--fit-probes", 1, "--eof-probes", 1, "--tight-probes", 1700], "timeout": 20000},
             {"sub": "sched", "quick": ["--seed", "{seed}", "--what", "st", "--cases", 4000],
              "thorough": ["--seed", "{seed}", "--what", "st", "--cases", 400000]},
             {"sub": "graphs", "quick": ["--seed", "{seed}", "--runner", "st", "--cases", 60, "--configs", 3],
@@ -221,7 +221,7 @@ PROPS = {
     "C09": {
         "required_theorems": ["c09_sync_within_windows", "c09_sync_wait_input_truthful", "c09_sync_wait_output_truthful",
                               "c09_sync_progress", "c09_sync_retires", "c09_skip", "c09_rtlsdr", "c09_fir", "c09_gated",
-                              "c09_delay", "c09_au_encode", "c09_v2s"],
+                              "c09_delay", "c09_au_encode", "c09_v2s", "c09_resampler"],
         "runs": [
             {"sub": "blocks", "quick": ["--seed", "{seed}", "--set", "modelled", "--cases", 800, "--steps", 40, "--tag-heavy", 1],
              "thorough": ["--seed", "{seed}", "--set", "modelled", "--cases", 40000, "--steps", 80, "--tag-heavy", 1]},
@@ -314,7 +314,7 @@ PROPS = {
     },
     "C12": {
         "required_theorems": ["c12_sync_same_index", "c12_sync_any_chunking", "c12_contract_sync", "c12_skip", "c12_delay", "c12_fir", "c12_fft",
-                              "c12_skip_any_chunking", "c12_delay_any_chunking", "c12_fir_any_chunking"],
+                              "c12_skip_any_chunking", "c12_delay_any_chunking", "c12_fir_any_chunking", "c12_hilbert_any_chunking"],
         "runs": [
             {"sub": "blocks", "quick": ["--seed", "{seed}", "--set", "modelled", "--cases", 1200, "--steps", 40, "--tag-heavy", 1],
              "thorough": ["--seed", "{seed}", "--set", "modelled", "--cases", 60000, "--steps", 80, "--tag-heavy", 1]},
